@@ -3,4 +3,5 @@
 From Coq Require Import ZArith NArith List.
 Import ListNotations.
 Definition c10_max_response : N := 16777216%N.
+Definition c10_max_server_response : N := 1048576%N.
 Definition c10_prefix_len : N := 4%N.
